@@ -96,8 +96,26 @@ class Emitter {
     return F;
   }
 
+  // exception specification as written / computed: "yes" (cannot throw), "no" (may throw), "?" (not evaluated yet)
+  static const char* nothrowOf(const FunctionDecl* D) {
+    const auto* FPT = D->getType()->getAs<FunctionProtoType>();
+    if (!FPT) return "?";
+    switch (FPT->getExceptionSpecType()) {
+      case EST_BasicNoexcept: case EST_NoexceptTrue: case EST_DynamicNone: case EST_NoThrow: return "yes";
+      case EST_None: case EST_NoexceptFalse: case EST_Dynamic: case EST_MSAny: return "no";
+      default: return "?";
+    }
+  }
+  static bool explicitNoexcept(const FunctionDecl* D) {
+    const auto* FPT = D->getType()->getAs<FunctionProtoType>();
+    if (!FPT) return false;
+    auto t = FPT->getExceptionSpecType();
+    return (t == EST_BasicNoexcept || t == EST_NoexceptTrue) && !D->isImplicit() && !isa<CXXDestructorDecl>(D);
+  }
+
   json::Value calleeInfo(const FunctionDecl* D) {
     json::Object o;
+    o["nx"] = nothrowOf(D);
     o["q"] = qname(D);
     o["n"] = D->getDeclName().getAsString();
     if (auto* M = dyn_cast<CXXMethodDecl>(D)) {
@@ -556,6 +574,7 @@ class Emitter {
     if (F->getTemplateSpecializationArgs()) o["targs"] = templArgs(F->getTemplateSpecializationArgs());
     o["constexpr"] = F->isConstexpr();
     if (F->isDefaulted()) o["defaulted"] = true;
+    if (explicitNoexcept(F)) o["noexcept"] = true;
     json::Array ps;
     for (const ParmVarDecl* V : F->parameters()) {
       json::Object p;
